@@ -304,8 +304,10 @@ static int workerMain(int argc, char** argv) {
   if (fl.empty()) return 2;
   Agg agg;
   double t0 = nowSec();
+  int nHangs = 0;
   for (uint64_t k = 0; k < count; k++) {
     if (budget > 0 && nowSec() - t0 > budget) break;
+    if (nHangs >= 2) break;   // two reproduced wall clock overruns are evidence enough; each one costs minutes
     uint64_t idx = from + k * step;
     const Family* fam = fl[idx % fl.size()];
     uint64_t rs = runSeed(seed, fam, idx);   // a family may be listed more than once (weight): the seed depends on the global index
@@ -322,6 +324,7 @@ static int workerMain(int argc, char** argv) {
     char head[256];
     snprintf(head, sizeof(head), "%llu\t%s\t%llu\t", static_cast<unsigned long long>(idx), fam->name, static_cast<unsigned long long>(rs));
     if (to) {
+      nHangs++;
       verdict = "hang";
       agg.viols.push_back(std::string(head) + "C20\thang\twall-clock watchdog\tchild exceeded the wall clock watchdog twice");
     } else if (!complete) {
